@@ -16,9 +16,9 @@ import (
 	"crypto/x509/pkix"
 	"encoding/base64"
 	"encoding/pem"
-	"log"
 	"fmt"
 	"io"
+	"log"
 	"math/big"
 	"net"
 	"net/http"
